@@ -1450,9 +1450,12 @@ impl HashColumn {
 					table.validate_plan(record.index, log)?;
 				} else {
 					if record.table.index_bits() < tables.index.id.index_bits() {
-						// Insertion into a previously dropped index.
-						log::warn!( target: "parity-db", "Index {} is too old. Current is {}", record.table, tables.index.id);
-						return Err(Error::Corruption("Unexpected log index id".to_string()))
+						// Change planned for an index that a later record has dropped since (after a
+						// crash that followed the drop the file is already gone). `enact_plan` skips
+						// such a change as well.
+						log::debug!( target: "parity-db", "Index {} is too old. Current is {}. Skipped", record.table, tables.index.id);
+						IndexTable::skip_plan(log)?;
+						return Ok(())
 					}
 					// Re-launch previously started reindex
 					// TODO: add explicit log records for reindexing events.
@@ -1484,9 +1487,11 @@ impl HashColumn {
 					table.validate_plan(record.index, log)?;
 				} else {
 					if record.table.index_bits() < tables.get_ref_count().id.index_bits() {
-						// Insertion into a previously dropped ref count.
-						log::warn!( target: "parity-db", "Ref count {} is too old. Current is {}", record.table, tables.get_ref_count().id);
-						return Err(Error::Corruption("Unexpected log ref count id".to_string()))
+						// Change planned for a ref count table that a later record has dropped since.
+						// `enact_plan` skips such a change as well.
+						log::debug!( target: "parity-db", "Ref count {} is too old. Current is {}. Skipped", record.table, tables.get_ref_count().id);
+						RefCountTable::skip_plan(log)?;
+						return Ok(())
 					}
 					// Re-launch previously started reindex
 					// TODO: add explicit log records for reindexing events.
